@@ -106,8 +106,6 @@ def run_rows(ctx, replay_obj, binary, findings):
     open_row_devs = sorted(by_dev)
     tcfg = ROW_CFG % dict(spec="TSpec", tabs="{}", maxsteps=maxsteps, devs="{}", gen="FALSE",
                           tail="  OpenDevs = %s\nCHECK_DEADLOCK FALSE\nPOSTCONDITION Post" % tla_set(open_row_devs))
-    # CONSTANTS block: OpenDevs must sit inside it
-    tcfg = tcfg.replace("  Gen = FALSE\n  OpenDevs", "  Gen = FALSE\n  OpenDevs")
     verdicts, accepted = vtable.validate_rows(ctx, "TableLookupTrace", tcfg, events, name="rows-trace", batch=20000, par=4)
     for t, what in selftest.items():
         v = verdicts.get(t)
@@ -202,20 +200,6 @@ def make_overlay(ctx):
 def behaviours_from(r):
     return [{"cfg": val["cfg"], "hist": val["hist"], "viol": val.get("viol", [])}
             for tag, val in r["printed"] if tag == "BEH"]
-
-
-def shape(b):
-    """what a behaviour exercises, for stratified sampling"""
-    sig = []
-    for h in b["hist"]:
-        a = h["a"]
-        if a in ("Stat", "Open", "Read"):
-            sig.append(a[0] + h["res"][0])
-        elif a == "EPut":
-            sig.append("P" + ("b" if any(l[0] == "!" for l in h["lines"]) else "") + ("o" if False else ""))
-        else:
-            sig.append(a)
-    return " ".join(sig)
 
 
 def nontrivial(b):
@@ -327,6 +311,11 @@ def generate(ctx, thorough):
                 got = bad[:n * 3 // 4] + good[:n // 4]
         else:
             ctx.rng.shuffle(got)
+            if n is not None:
+                # a sample favours behaviours that edit the file between two calls of one reload / break it
+                hot = [b for b in got if nontrivial(b)]
+                cold = [b for b in got if not nontrivial(b)]
+                got = hot[:n * 3 // 4] + cold + hot[n * 3 // 4:]
         k = 0
         for b in got:
             b.pop("viol", None)
